@@ -25,6 +25,9 @@ import (
 
 const pointInvoke = 1000
 
+// pointCtor: inside the connection constructor the pool calls from createConnection
+const pointCtor = 1001
+
 type rec struct {
 	mu sync.Mutex
 	w  *tr.W
@@ -124,6 +127,9 @@ func newWorld(r *rec, s *sched.S, max int64, rnd *rand.Rand) *world {
 		w.conns = append(w.conns, f)
 		w.mu.Unlock()
 		r.emit(tr.M{"ev": "ConnCreated", "r": f.id})
+		if w.s != nil {
+			w.s.Park(pointCtor, int64(f.id))
+		}
 		return f
 	}, pool.DCOptions{MaxOpenConnections: max})
 	return w
@@ -216,7 +222,7 @@ func (w *world) runReturn(r int) {
 func name(c int) string { return fmt.Sprintf("c%d", c) }
 
 var gateOf = map[string]uint16{
-	"A0": verifhook.PoolAcqEnter, "A1": verifhook.PoolAcqPopped, "A3": verifhook.PoolAcqCreated,
+	"A0": verifhook.PoolAcqEnter, "A1": verifhook.PoolAcqPopped, "A2": pointCtor, "A3": verifhook.PoolAcqCreated,
 	"A4pre": verifhook.PoolAcqWaiting, "DelKey": verifhook.PoolAcqGiveUp, "Recv": verifhook.PoolAcqGaveUp,
 	"Invoke": pointInvoke, "R0": verifhook.PoolRelease, "T1": verifhook.PoolTransferSend,
 }
@@ -243,7 +249,7 @@ func replay(r *rec, trace int, c tr.M, max int64) {
 				callers[cc] = true
 				w.start(cc, nil)
 			}
-		case "A0", "A1", "A3", "A4pre", "DelKey", "Recv", "R0", "T1":
+		case "A0", "A1", "A2", "A3", "A4pre", "DelKey", "Recv", "R0", "T1":
 			s.ReleaseIfAt(name(cc), gateOf[act])
 		case "A4", "RunDead", "BgRelease", "BgDrop":
 			// happens by itself in the real code
